@@ -7,6 +7,9 @@
 * correspondence with M-Setters (lean/DefconModel/Setters.lean): per operation the model is started from the
   abstraction of the target object's pre-state (read through the public getters) and must predict exactly the
   deliveries `(name, subject, old, new, getter-now)` of the operation's own notifications and the post-state;
+* correspondence with M-Follow (lean/DefconModel/Follow.lean): for operations on a layer's glyphs and components the
+  model is started from the abstraction of the layer (names -> glyph objects, outlines, components and what they
+  observe) and must predict which components post Component.BaseGlyphDataChanged and what they observe afterwards;
 * `extract`: lean/DefconModel/Gen/NotifNames.lean (documented / posted names per class, statement-order
   skeletons of every method that posts, holds or releases) regenerated from the AST on every run.
 """
@@ -28,43 +31,62 @@ SHRINKABLE = True
 RULE = ("histories of 4-50 operations on a generated font (built in memory / loaded lazily from a generated UFO / just "
         "saved): every attribute setter and container mutator of Glyph, Anchor, Guideline, Image, Component, Contour, "
         "Layer, LayerSet, Font, Info, Features, Lib/Kerning/Groups and ImageSet with generated values (>= 20 % "
-        "same-value repeats), scripted scenarios at known positions (margins with and without vertical origin, undo of "
-        "a delete, rejected insert of a duplicate identifier, rename away and back, delete then re-create under the old name, clear-all, layer default/order/"
+        "same-value repeats); objects handed to insertX / appendX are built by the caller (free-standing or via "
+        "instantiateX) or by the pen, contours carry point identifiers (about a third; some twice inside one contour, "
+        "some equal to the contour's own, some known to the glyph); glyphs are renamed also ONTO names that are taken; "
+        "scripted scenarios at known positions (margins with and without vertical origin, undo of "
+        "a delete, rejected insert of every kind of identifier clash, rename away and back, delete then re-create under the old name, clear-all, layer default/order/"
         "rename/delete, user hold brackets, edit-read-save, image and layer colour, contour reversal, dict items, "
-        "image set, font guidelines) plus one fixed history that visits every recorded call site; every delivery is "
-        "recorded by an early and a late observer that evaluate the getter inside the callback; non-trivial = at "
+        "image set, font guidelines, a component whose base glyph's name changes hands: replaced by newGlyph / insertGlyph / "
+        "another glyph renamed onto it, deleted and re-created, renamed away and back - then edited) plus one fixed "
+        "history that visits every recorded call site; every delivery is "
+        "recorded by an early and a late observer that evaluate the getter inside the callback; relayed notifications "
+        "(Component.BaseGlyphDataChanged, Layer.GlyphNameChanged, Layer.GlyphUnicodesChanged) are demanded whenever the "
+        "public API shows their trigger; non-trivial = at "
         "least one payload delivery AND one will delivery; distinct = distinct (font, history)")
 ASSUMPTIONS = [
     "under USER holds only the old value is judged against the values the getter had inside the bracket; 'value when "
-    "the observer is called' and will/did ordering are not claimed there (deferred delivery is the point of a hold)",
+    "the observer is called', will/did ordering and relayed notifications are not claimed there (deferred delivery is "
+    "the point of a hold)",
     "Font.GlyphOrderChanged carries the stored lib value (None when absent) while font.glyphOrder normalises absent "
     "to []: payload and getter are compared modulo None == []",
     "values handed to setters are in the documented form (lists for unicodes / orders, integers for metrics, "
     "4-tuples or UFO strings for colours); floats are compared with a 1e-9 tolerance",
-    "renaming a glyph or layer onto an existing name, deleting the default layer, and cyclic component references "
-    "are outside the domain (the adaptor skips them)",
+    "renaming a LAYER onto an existing name, deleting the default layer, and cyclic component references "
+    "are outside the domain (the adaptor skips them); renaming a GLYPH onto an existing name is in the domain (the "
+    "glyph that was filed under the name is replaced, as with newGlyph / insertGlyph over a name)",
     "a composite (glyph.anchors = ..., font.guidelines = ..., copyDataFromGlyph, Layer.insertGlyph, decompose*) "
     "stopped half way by a rejected element is not judged; should such a call leave the hold it imposed on itself "
     "unreleased (the assignments and insertGlyph release it in a finally clause since 67bac07), the harness "
     "releases it after the failed call",
     "python asserts enabled (no -O)",
-    "margin setters are judged from fresh component-bounds caches (the harness calls destroyAllRepresentations() on "
-    "the glyph's components first): a base glyph REPLACED by newGlyph/insertGlyph over its name leaves the "
-    "components' cached bounds stale (they observe the old, detached glyph object) - C03/C11's subject, not a "
-    "payload defect",
     "notifications sent while objects are CREATED by the operation (lazy loading, instantiateAnchor(dict), "
     "copyDataFromGlyph's new objects) have no 'before': only their new value is judged",
+    "sentence 3 for Component.BaseGlyphDataChanged reads the class docstring's bare list as 'posted when the data of "
+    "the base glyph changes': the trigger is judged on the public API only (the outline - points of the contours, "
+    "components - of layer[component.baseGlyph], or its absence, differs after the operation from before it; a "
+    "replacement by a glyph with an EQUAL outline demands nothing), for components that stay attached with the same "
+    "baseGlyph; that the holder glyph then posts Glyph.ComponentsChanged is not demanded (no sentence says so)",
+    "a pen drawing that fails half way (a point identifier that is taken) leaves the identifiers it registered behind: "
+    "C10's subject, not judged here",
 ]
 TRUSTED = [
     "harness/c08_world.py: PAYLOAD / WILL tables say which public getter each notification talks about",
     "harness/c08_model.py: abstraction of an object's state into the model's store (through getters; peeks at "
-    "_image, _scheduledForDeletion, _shallowLoadedContours avoid triggering lazy creation) and value tokens "
-    "(equal token <=> Python ==)",
+    "_image, _scheduledForDeletion, _shallowLoadedContours, layer._glyphs avoid triggering lazy creation / loading) and "
+    "value tokens (equal token <=> Python ==); for M-Follow: what a component observes is read through the public "
+    "hasObserver of its layer and of the glyphs filed in it",
     "harness/extract_notif.py: AST extractor (fails closed on unrecognised statement kinds, notification-name "
     "expressions, payload shapes, decorators); which calls count as state changes is a syntactic rule "
     "(receiver rooted at self/super, observation wiring excluded)",
     "facts the model takes as arguments because they live outside the object's store: duplicate-identifier / "
-    "ownership rejections, fontTools' fontinfo validation, zero-area contours, image digests",
+    "ownership rejections (computed by the harness from the incoming object's own identifiers - twice the same one "
+    "included - and the container's public `identifiers`), fontTools' fontinfo validation, zero-area contours, image "
+    "digests",
+    "M-Follow is compared operation by operation from the implementation's own pre-state for: Glyph.name=, "
+    "Layer.newGlyph / insertGlyph / __delitem__, insertComponent / removeComponent, Component.baseGlyph= and every "
+    "other operation after which exactly one glyph's outline differs; operations that also attach or detach other "
+    "components (a holder replaced, clear, decompose*, copyDataFromGlyph with components) get no M-Follow line",
 ]
 
 CLASS_OF = {"font": "Font", "info": "Info", "features": "Features", "lib": "Lib", "kerning": "Kerning",
@@ -293,6 +315,88 @@ def oracle(world, op, status, snap, members, events):
     return out
 
 
+# ---- sentence 3 on relayed notifications ------------------------------------------------------------
+#
+# Some documented notifications are posted by an object because ANOTHER object changed.  The operation "that can
+# trigger" them is the change of that other object, whatever public call performs it, and the relation between the
+# two objects is by NAME (component.baseGlyph -> the glyph the component's layer files under that name) or by
+# containment (a glyph filed in a layer): it has to survive every re-wiring of the name (replace, rename onto,
+# delete and re-create, rename away and back).
+
+_UNKNOWN = ("unknown",)
+
+
+def _outline(glyph):
+    if glyph._shallowLoadedContours is not None:        # peek: reading the contours would load them
+        return _UNKNOWN
+    return ("glyph",
+            tuple(tuple((p.x, p.y, p.segmentType, bool(p.smooth)) for p in c) for c in glyph._contours),
+            tuple((k.baseGlyph, tuple(k.transformation)) for k in glyph.components))
+
+
+def relay_snapshot(world):
+    """for every component of every loaded glyph filed in a layer of the font: the DATA OF ITS BASE GLYPH as the
+    public API shows it - the outline (points of the contours, components) of the glyph that the component's own
+    layer files under `component.baseGlyph`, ("absent",) when there is none"""
+    snap = {}
+    ls = world.font.layers
+    for ln in ls.layerOrder:
+        layer = ls[ln]
+        for g in list(layer._glyphs.values()):
+            for c in g.components:
+                name = c.baseGlyph
+                if name is None:
+                    data = ("none",)
+                elif name not in layer:
+                    data = ("absent",)
+                else:
+                    bg = layer._glyphs.get(name)          # peek: no lazy load
+                    data = _UNKNOWN if bg is None else _outline(bg)
+                snap[id(c)] = dict(component=c, holder=g, layer=layer, base=name, data=data)
+    return snap
+
+
+def relay_oracle(op, status, before, after, members, events, stats):
+    """`Component.BaseGlyphDataChanged` (documented by Component): an operation after which the data of a
+    component's base glyph differs from what it was before must make that component post it; `Layer.GlyphNameChanged`
+    / `Layer.GlyphUnicodesChanged` (documented by Layer): when a glyph filed in a layer announces a new name / new
+    unicodes, the layer must post its notification with the same old and new value."""
+    site = op_name(op)
+    viol = []
+    for k, b in before.items():
+        a = after.get(k)
+        if a is None or a["holder"] is not b["holder"] or a["layer"] is not b["layer"] or a["base"] != b["base"]:
+            continue        # the component itself was removed, moved or pointed elsewhere (Component.BaseGlyphChanged)
+        if b["data"] is _UNKNOWN or a["data"] is _UNKNOWN or a["data"] == b["data"]:
+            continue
+        stats["relay.base-glyph-data-changed"] = stats.get("relay.base-glyph-data-changed", 0) + 1
+        if not any(e.name == "Component.BaseGlyphDataChanged" and e.sender is b["component"] for e in events):
+            viol.append(dict(clause="C08/documented-not-posted",
+                             signature="C08/documented-not-posted/Component.BaseGlyphDataChanged/%s" % site,
+                             op=op, status=status, notification="Component.BaseGlyphDataChanged",
+                             component_of=repr(b["holder"].name), baseGlyph=repr(b["base"]),
+                             base_data_before=repr(b["data"])[:200], base_data_after=repr(a["data"])[:200]))
+    for ev in events:
+        relay = {"Glyph.NameChanged": "Layer.GlyphNameChanged", "Glyph.UnicodesChanged": "Layer.GlyphUnicodesChanged"}.get(ev.name)
+        if relay is None or ev.error or not ev.has_payload or _eq(ev.old, ev.new):
+            continue
+        filed_in = [cid for (cid, fam), m in members.items() if fam == "GlyphIdent" and id(ev.sender) in m.values()]
+        if not filed_in:
+            continue        # not filed in a layer before the operation (created by it, or a free glyph)
+        stats["relay.layer-forward"] = stats.get("relay.layer-forward", 0) + 1
+        if not any(e.name == relay and id(e.sender) == filed_in[0] and isinstance(e.data, dict) and
+                   _eq(e.data.get("oldValue"), ev.old) and _eq(e.data.get("newValue"), ev.new) for e in events):
+            viol.append(dict(clause="C08/documented-not-posted", signature="C08/documented-not-posted/%s/%s" % (relay, site),
+                             op=op, status=status, notification=relay, glyph_posted=ev.name,
+                             old=repr(ev.old)[:100], new=repr(ev.new)[:100]))
+    seen, out = set(), []
+    for x in viol:
+        if x["signature"] not in seen:
+            seen.add(x["signature"])
+            out.append(x)
+    return out
+
+
 def held_oracle(op, bracket, events):
     """inside / at the end of a USER hold bracket only this is claimed: an old value that is delivered is a value
     the getter had at the start of some operation of the bracket, or the new value of an earlier delivery"""
@@ -361,7 +465,15 @@ def gen_guideline_dict(rng):
     return d
 
 
-def gen_contour_spec(rng):
+# identifiers handed to objects built by the operations: id0-id5 are shared by every kind of object, p0 / a0 / k0 / g0
+# are what the generated fonts already carry (fontgen.gen_glyph)
+ID_POOL = ["id0", "id1", "id2", "id3", "id4", "id5", "p0", "p1", "a0", "k0", "g0"]
+
+
+def gen_contour_spec(rng, ids=None):
+    """a rectangle; points are [x, y, segmentType] or [x, y, segmentType, identifier].  `ids`: None = random
+    (about a third of the contours carry point identifiers, some of them twice, some equal to the contour's own),
+    False = no identifier anywhere"""
     ox, oy = rng.randint(-50, 200), rng.randint(-50, 200)
     w, h = rng.randint(10, 300), rng.randint(10, 300)
     pts = [[ox, oy, "line"], [ox, oy + h, "line"], [ox + w, oy + h, "line"], [ox + w, oy, "line"]]
@@ -369,8 +481,30 @@ def gen_contour_spec(rng):
         pts.reverse()
     if rng.random() < 0.2:
         pts[0][2] = "move"
-    return {"id": ("id%d" % rng.randint(0, 5)) if rng.random() < 0.25 else None, "points": pts,
-            "owned": rng.random() < 0.3}
+    if ids is False:
+        return {"id": None, "points": pts, "owned": False}
+    cid = ("id%d" % rng.randint(0, 5)) if rng.random() < 0.25 else None
+    if rng.random() < 0.35:
+        for pt in pts:
+            if rng.random() < 0.45:
+                pt.append(rng.choice(ID_POOL))
+        k = rng.random()
+        if k < 0.2:
+            # the same identifier twice inside the incoming contour
+            i, j = rng.sample(range(4), 2)
+            pid = rng.choice(ID_POOL + ["q7", "q8"])
+            pts[i], pts[j] = pts[i][:3] + [pid], pts[j][:3] + [pid]
+        elif k < 0.3:
+            # a point that carries the contour's own identifier
+            cid = cid or rng.choice(ID_POOL + ["q7"])
+            i = rng.randrange(4)
+            pts[i] = pts[i][:3] + [cid]
+    return {"id": cid, "points": pts, "owned": rng.random() < 0.3}
+
+
+def gen_index(rng, hi=3):
+    """an index for insertX - or None: the appendX spelling"""
+    return None if rng.random() < 0.2 else rng.randint(0, hi)
 
 
 def gen_value(rng, cls, attr, same=None):
@@ -507,23 +641,28 @@ def gen_op(rng, focus=None):
         return ["set", ["info"], a, gen_value(rng, "Info", a)]
     if r < 0.72:
         g = tgt("glyph")
-        m = rng.choice(["insertContour", "removeContour", "insertComponent", "removeComponent", "insertAnchor", "insertAnchor",
-                        "removeAnchor", "insertGuideline", "removeGuideline", "reinsert", "reinsert", "clearContours",
-                        "clearComponents", "clearAnchors", "clearGuidelines", "clear", "clearImage", "decomposeComponent",
-                        "decomposeAllComponents", "copyDataFromGlyph", "move", "removeForeign"])
+        m = rng.choice(["insertContour", "insertContour", "removeContour", "insertComponent", "removeComponent", "insertAnchor",
+                        "insertAnchor", "removeAnchor", "insertGuideline", "removeGuideline", "reinsert", "reinsert",
+                        "clearContours", "clearComponents", "clearAnchors", "clearGuidelines", "clear", "clearImage",
+                        "decomposeComponent", "decomposeAllComponents", "copyDataFromGlyph", "move", "removeForeign",
+                        "drawContour"])
         if m == "insertContour":
-            return ["call", g, m, rng.randint(0, 3), gen_contour_spec(rng)]
+            return ["call", g, m, gen_index(rng), gen_contour_spec(rng)]
+        if m == "drawContour":
+            return ["call", g, m, gen_contour_spec(rng)]
         if m == "insertComponent":
-            return ["call", g, m, rng.randint(0, 3), rng.choice(["A", "B", "C", "nope"]),
+            return ["call", g, m, gen_index(rng), rng.choice(["A", "B", "C", "nope"]),
                     [1, 0, 0, 1, rng.randint(-20, 20), rng.randint(-20, 20)],
                     ("id%d" % rng.randint(0, 5)) if rng.random() < 0.25 else None, rng.random() < 0.3]
         if m in ("removeContour", "removeComponent", "removeAnchor", "removeGuideline", "decomposeComponent"):
             return ["call", g, m, rng.randint(0, 3)]
         if m == "insertAnchor":
-            return ["call", g, m, rng.randint(0, 3), gen_anchor_dict(rng), rng.choice(["dict", "object", "owned"])]
+            return ["call", g, m, gen_index(rng), gen_anchor_dict(rng), rng.choice(["dict", "object", "owned"])]
         if m == "insertGuideline":
-            return ["call", g, m, rng.randint(0, 3), gen_guideline_dict(rng), rng.choice(["dict", "object", "owned"])]
-        if m in ("reinsert", "removeForeign"):
+            return ["call", g, m, gen_index(rng), gen_guideline_dict(rng), rng.choice(["dict", "object", "owned"])]
+        if m == "reinsert":
+            return ["call", g, m, rng.choice(["contour", "component", "anchor", "guideline"]), gen_index(rng)]
+        if m == "removeForeign":
             return ["call", g, m, rng.choice(["contour", "component", "anchor", "guideline"]), rng.randint(0, 3)]
         if m == "copyDataFromGlyph":
             return ["call", g, m, rng.randint(0, 2), rng.randint(0, 5)]
@@ -552,8 +691,10 @@ def gen_op(rng, focus=None):
         m = rng.choice(["insertGuideline", "removeGuideline", "reinsertGuideline", "clearGuidelines", "newGlyph",
                         "removeForeignGuideline"])
         if m == "insertGuideline":
-            return ["call", ["font"], m, rng.randint(0, 3), gen_guideline_dict(rng), rng.choice(["dict", "object", "owned"])]
-        if m in ("removeGuideline", "reinsertGuideline"):
+            return ["call", ["font"], m, gen_index(rng), gen_guideline_dict(rng), rng.choice(["dict", "object", "owned"])]
+        if m == "reinsertGuideline":
+            return ["call", ["font"], m, gen_index(rng)]
+        if m == "removeGuideline":
             return ["call", ["font"], m, rng.randint(0, 3)]
         if m == "newGlyph":
             return ["call", ["font"], m, rng.choice(NAMES)]
@@ -637,9 +778,36 @@ def scenario(rng, kind):
             return [["call", g, "insertComponent", 0, "A", [1, 0, 0, 1, 0, 0], i, False],
                     ["call", g, "insertComponent", 0, "B", [1, 0, 0, 1, 1, 1], i, False]]
         if what == "contour":
-            c1, c2 = gen_contour_spec(rng), gen_contour_spec(rng)
-            c1["id"], c2["id"], c1["owned"], c2["owned"] = i, i, False, False
-            return [["call", g, "insertContour", 0, c1], ["call", g, "insertContour", 0, c2]]
+            # every way a caller-built contour can clash: with a contour / a point / an anchor of the glyph, and
+            # INSIDE itself (one identifier on two of its points, a point with the contour's own identifier) - a
+            # free-standing contour checks none of this before it is handed over
+            def box(cid, *pids):
+                c = gen_contour_spec(rng, ids=False)
+                c["id"] = cid
+                for pt, pid in zip(c["points"], pids):
+                    if pid is not None:
+                        pt.append(pid)
+                return c
+            j = "q%d" % rng.randint(0, 9)
+            idx = lambda: gen_index(rng, 1)
+            variants = {
+                "contour-id": [["call", g, "insertContour", 0, box(i)], ["call", g, "insertContour", idx(), box(i)]],
+                "point-vs-point": [["call", g, "insertContour", 0, box(None, i, j)],
+                                   ["call", g, "insertContour", idx(), box(None, None, i)]],
+                "point-vs-anchor": [["call", g, "insertAnchor", 0, {"x": 1, "y": 2, "identifier": i}, "dict"],
+                                    ["call", g, "insertContour", idx(), box(None, None, None, i)]],
+                "point-twice": [["call", g, "insertContour", idx(), box(None, j, None, j)]],
+                "point-is-contour": [["call", g, "insertContour", idx(), box(j, None, j)]],
+                "point-twice-known": [["call", g, "insertContour", 0, box(None, i)],
+                                      ["call", g, "insertContour", idx(), box(None, j, j, i)]],
+            }
+            ops = []
+            for k in rng.sample(sorted(variants), rng.randint(2, 4)):
+                ops += variants[k]
+            # ... and one that is accepted, through each spelling
+            ops += [["call", g, "insertContour", None, box("q10", "q11", "q12")], ["call", g, "drawContour", box("q13", "q14", "q14")],
+                    ["call", g, "drawContour", box("q15", "q16")]]
+            return ops
         return [["call", ["font"], "insertGuideline", 0, {"x": 1, "identifier": i}, "object"],
                 ["call", ["font"], "insertGuideline", 0, {"y": 2, "identifier": i}, "object"]]
     if kind == "rename-back":
@@ -704,11 +872,43 @@ def scenario(rng, kind):
                 ["call", f, "removeGuideline", 0], ["call", f, "reinsertGuideline", 0], ["call", f, "removeGuideline", 1],
                 ["call", f, "removeForeignGuideline"], ["call", f, "clearGuidelines"],
                 ["set", f, "guidelines", [gen_guideline_dict(rng), gen_guideline_dict(rng)]], ["call", f, "clearGuidelines"]]
+    if kind == "base-follow":
+        # a component refers to its base glyph by NAME: whatever glyph object the layer files under that name is the
+        # base glyph, also after the name changed hands.  Glyphs are addressed by name here.
+        l = ["layer", li]
+        base, holder, other = rng.choice(["A", "B", "C"]), rng.choice(["D", "E", "f_i"]), rng.choice(["new1", "new2"])
+        b, h, o = ["glyph", li, base], ["glyph", li, holder], ["glyph", li, other]
+        box = lambda: gen_contour_spec(rng, ids=False)
+        ops = [["call", l, "newGlyph", base], ["call", b, "insertContour", 0, box()],
+               ["call", l, "newGlyph", holder], ["call", h, "insertComponent", 0, base, [1, 0, 0, 1, 3, 4], None, False],
+               ["call", b, "move", 10, 0]]
+        for how in rng.sample(["rename-onto", "newGlyph-over", "insertGlyph-over", "delete-recreate", "away-and-back",
+                               "away-then-other"], rng.randint(1, 3)):
+            if how == "rename-onto":
+                ops += [["call", l, "newGlyph", other], ["call", o, "insertContour", 0, box()], ["set", o, "name", base]]
+            elif how == "newGlyph-over":
+                ops += [["call", l, "newGlyph", base]]
+            elif how == "insertGlyph-over":
+                ops += [["call", l, "newGlyph", other], ["call", o, "insertContour", 0, box()],
+                        ["call", l, "insertGlyph", li, other, base]]
+            elif how == "delete-recreate":
+                ops += [["delitem", l, base], ["call", l, "newGlyph", base]]
+            elif how == "away-and-back":
+                ops += [["set", b, "name", "zz"], ["set", ["glyph", li, "zz"], "name", base]]
+            else:
+                ops += [["set", b, "name", "zz"], ["call", l, "newGlyph", other], ["call", o, "insertContour", 0, box()],
+                        ["set", o, "name", base]]
+            # the glyph that is filed under the name NOW is edited: its components must say so
+            c = ["contour", li, base, 0]
+            ops += [["call", b, "insertContour", None, box()], ["call", b, "move", 0, 7],
+                    ["call", c, "move", 5, 5] if rng.random() < 0.5 else ["call", c, "reverse"]]
+        ops += [["set", b, "unicodes", [66]], ["call", b, "clearContours"], ["delitem", l, base]]
+        return ops
     raise ValueError(kind)
 
 
 SCENARIOS = ["margins", "undo-delete", "rejected-insert", "rename-back", "delete-recreate", "clear-all", "layers", "hold-bracket",
-             "edit-read-save", "image", "contours", "dicts", "images", "font-guidelines"]
+             "edit-read-save", "image", "contours", "dicts", "images", "font-guidelines", "base-follow"]
 
 
 def gen_case(rng, maxops):
@@ -905,12 +1105,8 @@ def run_world(case, per_op=None):
                     list(g)
                     if op[0] == "set" and op[1][0] == "glyph" and op[2].endswith("Margin"):
                         margins_of = g
-                        # margins are computed from cached component bounds.  defcon evicts them when the base glyph
-                        # is edited, renamed, deleted or added (32fccc7) but NOT when it is REPLACED by newGlyph /
-                        # insertGlyph over an existing name (the component keeps observing the old, detached glyph
-                        # object: F16's territory, C03/C11) - start from fresh caches
-                        for c in g.components:
-                            c.destroyAllRepresentations()
+                        # margins are computed from cached component bounds, as they are: defcon evicts them when the
+                        # base glyph is edited, renamed, deleted, added (32fccc7) or replaced under its name (5fa9b2d)
 
                 if op[0] == "call" and op[2] in ("copyDataFromGlyph", "insertGlyph"):
                     list(w.glyph_at(op[3], op[4]))
@@ -919,18 +1115,27 @@ def run_world(case, per_op=None):
             held = bool(w.user_holds)
             snap = w.snapshot(margins_of)
             members = membership_snapshot(w)
+            relays = relay_snapshot(w)
             box = {}
 
             def mid(details, op=op, box=box):
                 box["ctx"] = ad.before(op, details)
+                box["fctx"] = ad.follow_before(op, details)
             status, details = w.do(op, mid)
             events = list(w.rec.events)
             late = list(w.late.events)
             line, mout = ad.after(op, box.get("ctx"), status, details, events)
-            lines.append(line)
             if line is not M.SKIP:
                 stats["modelled-ops"] = stats.get("modelled-ops", 0) + 1
                 stats["entry." + line[1]] = stats.get("entry." + line[1], 0) + 1
+            fol = ad.follow_after(op, box.get("fctx"), status, details, events)
+            if fol is not None:
+                # the same operation as M-Follow sees it: which components re-post it
+                stats["follow." + str(fol[0][1][0])] = stats.get("follow." + str(fol[0][1][0]), 0) + 1
+                if len(fol[1][0]) > 1:
+                    stats["follow.posted"] = stats.get("follow.posted", 0) + 1
+                line, mout = [Atom("both"), line, fol[0]], [Atom("both"), mout, fol[1]]
+            lines.append(line)
             name = op_name(op)
             stats["op." + name] = stats.get("op." + name, 0) + 1
             stats["status." + status.split(":")[0]] = stats.get("status." + status.split(":")[0], 0) + 1
@@ -953,6 +1158,7 @@ def run_world(case, per_op=None):
                 vs = []
             else:
                 vs = oracle(w, op, status, snap, members, events) + oracle(w, op, status, snap, members, late)
+                vs += relay_oracle(op, status, relays, relay_snapshot(w), members, events, stats)
             for x in vs:
                 x["step"] = step
             viols.extend(vs)
